@@ -32,3 +32,8 @@ func verifDispatcherClient(mqConfig config.MQConfig, ttMsgStream bool) msgdispat
 
 // verifNilIfDone returns ch unchanged unless built with the verif tag.
 func verifNilIfDone[C any](ctx context.Context, ch C, site string) C { return ch }
+
+// verifOrderHandlers leaves the handlers in the order they were found unless built with the verif tag.
+func verifOrderHandlers(collectionID, partitionID int64, hs []*replicateChannelHandler) []*replicateChannelHandler {
+	return hs
+}
